@@ -51,7 +51,7 @@ func AddAttacks(g *Generated, r *rand.Rand, attackers []string) *Attack {
 		a.Victims[v.ID] = true
 		k++
 		base := fmt.Sprintf("https://%s/evil/%d-%d", ah, labelCounterNext(), k)
-		switch r.Intn(11) {
+		switch r.Intn(15) {
 		case 0: // a note of the attacker that embeds a forged copy as its parent and as its author
 			g.SetDoc(base, map[string]any{"id": base, "type": "Note", "name": "EVILNOTE", "content": "<p>own</p>", "inReplyTo": forgedCopy(v, ah, k), "attributedTo": forgedCopy(victims[r.Intn(len(victims))], ah, k)})
 			a.Forgeries += 2
@@ -90,6 +90,23 @@ func AddAttacks(g *Generated, r *rand.Rand, attackers []string) *Attack {
 			wrapper := map[string]any{"id": fmt.Sprintf("https://%s/creates/%d", v.Host, labelCounterNext()), "type": "Create", "actor": v.ID, "object": forgedCopy(v, ah, k)}
 			g.SetDoc(base, map[string]any{"id": base, "type": []string{"Announce", "Like", "Create"}[r.Intn(3)], "actor": map[string]any{"type": "Person", "name": "EVILACTOR"}, "object": wrapper})
 			a.Forgeries++
+		case 11, 12: // the victim's redirecting address lands on an attacker document that names that very address as its id
+			open := fmt.Sprintf("https://%s/open-redirect?self=%d-%d", v.Host, labelCounterNext(), k)
+			forged := base + "/self-named"
+			doc := forgedCopy(v, ah, k)
+			doc["id"] = open
+			g.SetDoc(forged, doc)
+			g.SetRedirect(open, forged)
+			a.Entries = append(a.Entries, open)
+			g.SetDoc(base, map[string]any{"id": base, "type": "Note", "name": "EVILSELF", "content": "<p>x</p>", "inReplyTo": open, "attributedTo": open})
+			a.Forgeries++
+		case 13, 14: // a collection on the victim's host whose page is hosted elsewhere; the page has no id and embeds "the victim's" objects
+			coll := fmt.Sprintf("https://%s/coll/outsourced-%d", v.Host, labelCounterNext())
+			page := base + "/anon-page"
+			g.SetDoc(page, map[string]any{"type": "OrderedCollectionPage", "orderedItems": []any{forgedCopy(v, ah, k), forgedCopy(victims[r.Intn(len(victims))], ah, k)}})
+			g.SetDoc(coll, map[string]any{"id": coll, "type": "OrderedCollection", "totalItems": 2.0, "first": page})
+			a.Entries = append(a.Entries, coll)
+			a.Forgeries += 2
 		case 8: // ping-pong: the attacker's document names the victim's id, the victim's real document is fine
 			g.SetDoc(base, map[string]any{"id": v.ID, "type": "Note", "name": v.Label + "X ZZFORGERY by " + ah, "content": "<p>forged</p>", "replies": map[string]any{"id": v.ID + "/fake-replies", "type": "Collection", "items": []any{forgedCopy(v, ah, k)}}})
 			a.Forgeries += 2
